@@ -120,7 +120,7 @@ type input struct {
 	Behaviours [][]step `json:"behaviours"`
 	Meta       []meta   `json:"meta,omitempty"`
 	Variants   []int    `json:"variants,omitempty"` // variants to cycle through (default 0..7 thorough, {0,3,5,6} quick)
-	Mode       string   `json:"mode,omitempty"`     // "" | "calibrate"
+	Mode       string   `json:"mode,omitempty"`     // "" | "calibrate" | "oracle" (replay of a predicted defect: property only)
 	Workers    int      `json:"workers,omitempty"`
 }
 
@@ -752,11 +752,24 @@ func replayOne(in *input, idx int, beh []step, m meta) (oc outcome) {
 	r.node = chainkit.NewNode(im.store.Copy(), m.Variant&1 != 0, r.opts()...)
 	proj := &projector{at: at, cache: map[string]decoded{}}
 
-	mkInput := func(si int) any {
-		return vh.J{"w": in.W, "base": in.Base, "behaviours": [][]step{beh[:si+1]}, "meta": []meta{m}}
+	// A behaviour that exhibits a defect the model predicts is recorded for replay in "oracle" mode:
+	// the replay then judges the property only (answers against the stored receipts, Store/Revert
+	// not refused), so that it passes once the defect is repaired although the recorded expectations
+	// are those of the defective model.
+	oracleOnly := in.Mode == "oracle"
+	mkInput := func(si int, mode string) any {
+		j := vh.J{"w": in.W, "base": in.Base, "behaviours": [][]step{beh[:si+1]}, "meta": []meta{m}}
+		if mode != "" {
+			j["mode"] = mode
+		}
+		return j
 	}
 	diverge := func(si int, key, what string, exp, obs any) {
-		oc.divergences = append(oc.divergences, vh.Divergence{Key: key, What: what, Input: mkInput(si), Step: si, Expected: exp, Observed: obs})
+		mode := ""
+		if key == keyStaleCache || key == keyStaleSnapshot || key == keyStoreRejected || key == keyStalePersist {
+			mode = "oracle"
+		}
+		oc.divergences = append(oc.divergences, vh.Divergence{Key: key, What: what, Input: mkInput(si, mode), Step: si, Expected: exp, Observed: obs})
 	}
 
 	for si := range beh {
@@ -775,7 +788,9 @@ func replayOne(in *input, idx int, beh []step, m meta) (oc outcome) {
 			if !stored {
 				obs = "err"
 			}
-			if obs != s.Res.Kind {
+			if obs != s.Res.Kind && oracleOnly && obs == "ok" {
+				// repaired since the behaviour was recorded
+			} else if obs != s.Res.Kind {
 				oc.conform = false
 				diverge(si, "event-index:conformance:Store:"+obs, fmt.Sprintf("Store of block %d: model %s, real %s (%v)", s.St.Height, s.Res.Kind, obs, err), s.Res.Kind, obs)
 				stop = true
@@ -792,7 +807,9 @@ func replayOne(in *input, idx int, beh []step, m meta) (oc outcome) {
 			} else {
 				r.oracle = r.oracle[:len(r.oracle)-1]
 			}
-			if obs != s.Res.Kind {
+			if obs != s.Res.Kind && oracleOnly && obs == "ok" {
+				// repaired since the behaviour was recorded
+			} else if obs != s.Res.Kind {
 				oc.conform = false
 				diverge(si, "event-index:conformance:Revert:"+obs, fmt.Sprintf("RevertHead: model %s, real %s (%v)", s.Res.Kind, obs, err), s.Res.Kind, obs)
 				stop = true
@@ -830,7 +847,7 @@ func replayOne(in *input, idx int, beh []step, m meta) (oc outcome) {
 			obs := vh.J{"pages": q.pages, "tokens": q.toks, "error": q.err, "content": q.bad}
 			exp := vh.J{"oracle": want, "model_pages": mPages, "model_tokens": mToks, "model_why": s.Res.Why}
 			switch {
-			case exact && conf:
+			case exact && (conf || oracleOnly):
 			case !exact && conf:
 				// the real code violates the property exactly as the faithful model predicts
 				key := "event-query:model-predicted:" + s.Res.Why
@@ -878,6 +895,9 @@ func replayOne(in *input, idx int, beh []step, m meta) (oc outcome) {
 		}
 		if stop {
 			return oc
+		}
+		if oracleOnly {
+			continue
 		}
 		rs, err := proj.project(r.node.Store, in.W)
 		if err != nil {
